@@ -19,10 +19,7 @@ OpEnabled(op) ==
                         /\ DescH(op[2]) # DescH(op[3])
                         /\ <<HPath(Pack, DescH(op[2])), HLoc(Pack, DescH(op[2]))>> # <<HPath(Pack, DescH(op[3])), HLoc(Pack, DescH(op[3]))>>
     [] op[1] = "inv" -> op[2] \in Locs /\ op[3] \in Paths /\ InSeq(nodes, op[3])
-Do(op) ==
-  CASE op[1] = "reg" -> RegisterPath(op[2], op[3], op[4])
-    [] op[1] = "rel" -> RegisterRelation(op[2], op[3])
-    [] op[1] = "inv" -> InvalidateLocation(op[2], op[3])
+\* Do(op): see MC_DataManager
 
 TInit == Init /\ tid = 1 /\ pos = 1
 Reset == /\ dl' = <<>> /\ nodes' = <<>> /\ last' = [k |-> "none"] /\ err' = "none"
